@@ -60,7 +60,15 @@ def install():
         rec = None
         if _STATE["calls"] is not None:
             fr = sys._getframe(1)  # noqa: SLF001
-            rec = {"fn": getattr(fun, "__qualname__", repr(fun)), "mode": mode, "file": _rel(fr.f_code.co_filename),
+            g, in_close = fr, False
+            for _ in range(12):          # is this call issued (transitively) by Workspace.close ?
+                if g is None:
+                    break
+                if g.f_code.co_name == "close" and g.f_code.co_filename.endswith("workspace.py"):
+                    in_close = True
+                    break
+                g = g.f_back
+            rec = {"fn": getattr(fun, "__qualname__", repr(fun)), "mode": mode, "file": _rel(fr.f_code.co_filename), "in_close": in_close,
                    "line": fr.f_lineno, "handle": handle_state(self), "out": "ok", "ws": id(self),
                    "rp0": bool(self._repack), "repack": False}
             _STATE["calls"].append(rec)
